@@ -102,6 +102,8 @@ func (c *consumer) run(want int, marker any) {
 			vrt.Assert(old.msg != m, "each delivery is a separate copy")
 		}
 		vrt.Assert(m.Metadata.Get("k2") == "", "a delivery carries the metadata the message had when it was published")
+		_, hasFlag := m.Metadata["flag"]
+		vrt.Assert(hasFlag && len(m.Metadata) == 2, "a delivery carries the complete metadata key set of the published message (also keys with empty values)")
 		m.Metadata.Set("k", "mutated-by-"+c.name) // must never leak
 		if seen[m.UUID] < c.nacks {
 			seen[m.UUID]++
@@ -121,6 +123,7 @@ func newPubSub(cfg Config) *GoChannel { return NewGoChannel(cfg, watermill.NopLo
 func newMsg(i int) *message.Message {
 	m := message.NewMessage("u"+strconv.Itoa(i), message.Payload("p"+strconv.Itoa(i)))
 	m.Metadata.Set("k", "v"+strconv.Itoa(i))
+	m.Metadata["flag"] = "" // an entry whose value is empty is an entry all the same
 	return m
 }
 
